@@ -148,8 +148,12 @@ func (parser *syslogParser) Parse(input []byte, timestamp time.Time) *base.LogRe
 	remaining = next
 
 	// rest of header fields delimited by whitespace
-	for _, locator := range parser.restFieldLocators {
+	for i, locator := range parser.restFieldLocators {
 		ok, val, next := nextFieldBySpace(remaining)
+		if !ok && i == len(parser.restFieldLocators)-1 && len(remaining) > 0 {
+			// RFC 5424: "HEADER SP STRUCTURED-DATA [SP MSG]", the line may end right after the structured data
+			ok, val, next = true, remaining, ""
+		}
 		if !ok {
 			parser.onMalformed(record, fmt.Sprintf("missing syslog field '%s'", locator.Name(parser.schema)), input)
 			return nil
